@@ -222,6 +222,59 @@ fn file_part(rep: &Arc<Reporter>, args: &Args) {
             }
         }
     }
+    // the loader keeps the meaning of every rule: rule lists drawn from the same variants as the
+    // engine part (malformed CIDRs and patterns included) are written to a rules file, read back
+    // through `Settings`, and judged by the reference evaluator over all addresses x randoms
+    {
+        let mut variants: Vec<(Option<&str>, Option<&str>, bool)> = vec![];
+        for c in CIDRS { for p in PATTERNS { for a in [true, false] { variants.push((*c, *p, a)); } } }
+        let addrs: Vec<IpAddr> = ADDRS.iter().map(|a| a.parse().unwrap()).collect();
+        let rnds = randoms();
+        let mut r = Rng::derive(args.seed, 0xc04f, 0);
+        let mut lists: Vec<Vec<(Option<&str>, Option<&str>, bool)>> = variants.iter().map(|v| vec![*v]).collect();
+        // a malformed-CIDR rule in front of a catch-all of the opposite action, for every malformed form
+        for c in CIDRS.iter().filter(|c| c.map(|c| parse_cidr(c).is_none()).unwrap_or(false)) {
+            for a in [true, false] { lists.push(vec![(*c, None, a), (None, None, !a)]); lists.push(vec![(*c, Some("aa"), a), (None, None, !a)]); }
+        }
+        for _ in 0..(if args.thorough() { 6000 } else { 600 }) {
+            let len = r.range(2, 5) as usize;
+            lists.push((0..len).map(|_| variants[r.below(variants.len() as u64) as usize]).collect());
+        }
+        let path = dir.join("rules-generated.toml");
+        let mut bad: BTreeMap<String, Value> = BTreeMap::new();
+        let mut judged = 0u64;
+        for rules in &lists {
+            let mut text = String::new();
+            for (c, p, a) in rules {
+                text.push_str("[[rule]]\n");
+                if let Some(c) = c { text.push_str(&format!("cidr = \"{}\"\n", c)); }
+                if let Some(p) = p { text.push_str(&format!("client_random_prefix = \"{}\"\n", p)); }
+                text.push_str(&format!("action = \"{}\"\n", if *a { "allow" } else { "deny" }));
+            }
+            std::fs::write(&path, &text).unwrap();
+            rep.evals(1);
+            rep.distinct(common::fnv(text.as_bytes()));
+            let settings = match common::catch(|| settings_for(Some(&path.to_string_lossy()))) {
+                Ok(Ok(s)) => s,
+                Ok(Err(e)) => { bad.entry("settings with a generated rules file refused".into()).or_insert(json!({"file":text,"error":e})); continue; }
+                Err(p) => { bad.entry(format!("rules file loader panicked: {}", common::panic_file(&p))).or_insert(json!({"file":text,"panic":p})); continue; }
+            };
+            let engine = settings.get_rules_engine();
+            for (ai, ip) in addrs.iter().enumerate() {
+                for rnd in &rnds {
+                    let got = match engine { None => true, Some(e) => e.evaluate(ip, rnd.as_deref()) == RuleEvaluation::Allow };
+                    let (may_allow, may_deny) = ref_engine(rules, ip, rnd.as_deref());
+                    judged += 1;
+                    if (got && !may_allow) || (!got && !may_deny) {
+                        bad.entry(format!("rules file: {}", classify(rules, ADDRS[ai], rnd, got))).or_insert_with(|| json!({"kind":"rules-file","file":text,"address":ADDRS[ai],"client_random":rnd.as_ref().map(|r| common::hex(r)),
+                            "engine":if got {"allow"} else {"deny"},"reference_allows":{"allow":may_allow,"deny":may_deny}}));
+                    }
+                }
+            }
+        }
+        rep.tally("rules file: verdicts of generated rule lists judged against the reference", judged);
+        for (s, d) in bad { rep.violation(&s, d); }
+    }
     // a rules_file path that does not exist: documented as allow-all
     match settings_for(Some("/nonexistent/rules.toml")) {
         Ok(s) => { let ok = s.get_rules_engine().as_ref().map(|e| e.evaluate(&ip, None) == RuleEvaluation::Allow).unwrap_or(true); if !ok { rep.violation("missing rules file does not default to allow-all", json!({})); } else { rep.tally("missing rules file -> allow all", 1); } }
